@@ -76,7 +76,7 @@ func c10Gen(r *RNG, id string) *Case {
 	for i := 0; i < n; i++ {
 		seqs = append(seqs, tractSeq(r, strings.ToUpper(ref)))
 	}
-	c.Set("ref", ref).Set("names", strings.Join(randNames(r, n, ""), ",")).Set("seqs", strings.Join(seqs, ","))
+	c.Set("ref", ref).Set("names", strings.Join(randNamesCSV(r, n, "", true), ",")).Set("seqs", strings.Join(seqs, ","))
 	for _, s := range seqs {
 		if hasAmbig(s) {
 			c.NonTrv = true
@@ -86,7 +86,7 @@ func c10Gen(r *RNG, id string) *Case {
 }
 
 func execC10(r *RNG, c *Case) {
-	names := strings.Split(c.Get("names"), ",")
+	names := splitNames(c.Get("names"))
 	seqs := strings.Split(c.Get("seqs"), ",")
 	refTxt := renderFasta([]string{"reference"}, []string{c.Get("ref")}, randLayout(r))
 	alnTxt := renderFasta(withDescriptions(r, names), seqs, randLayout(r))
